@@ -701,7 +701,7 @@ pub fn run_family_with(ctx: &Ctx, focus: Focus, rule: &str, between: &mut dyn Fn
         }
         // a backlog of thousands of entries behind a held writer, then one flush request (the drain passes are long)
         if focus == Focus::Flush {
-            let sizes: &[(usize, usize)] = if ctx.tier_thorough { &[(4096, 3000), (8192, 5000), (70_000, 66_000), (4096, 1100)] } else { &[(4096, 3000), (8192, 2100)] };
+            let sizes: &[(usize, usize)] = if ctx.tier_thorough { &[(4096, 3000), (8192, 5000), (20_000, 12_000), (4096, 1100)] } else { &[(4096, 3000), (8192, 2100)] };
             for &(cap, backlog) in sizes {
                 for kind in 0..2u8 {
                     let p = StressPlan { cap, kind, threads: 1, per_thread: backlog, stall: true, flush_every: backlog, interval_us: if kind == 0 { 1_000_000 } else { 100 }, val_every: 0, seed: (rng.next() & !3) | 2 };
